@@ -112,7 +112,7 @@ class C20(Prop):
     assumptions = ["OS-level durability/atomicity of write(2) is outside the model (exercised by the SIGKILL runs only)",
                    "a truncated file is read with read_block (read_plan to the end of a stream with a partial trailing "
                    "sample raises ValueError by design)"]
-    regimes_expected = list(WRITERS) + ["sigkill", "above-1MiB"]
+    regimes_expected = list(WRITERS) + ["sigkill", "above-1MiB", "over-older-longer-file"]
     budget_s = (240, 1500)
 
     def _case(self, rng, writer=None):
@@ -122,7 +122,8 @@ class C20(Prop):
         if writer == "bands" and nbits < 8:
             C = 16
         N = rng.choice((12, 20, 31))
-        return {"writer": writer, "nbits": nbits, "C": C, "N": N, "g": rng.choice((3, 5, 8, N + 1)), "dseed": rng.randrange(1 << 30)}
+        return {"writer": writer, "nbits": nbits, "C": C, "N": N, "g": rng.choice((3, 5, 8, N + 1)), "dseed": rng.randrange(1 << 30),
+                "preexist": rng.random() < 0.4}
 
     def _big(self, rng, writer=None):
         """outputs above 1 MiB (size-dependent behaviour: preallocation, buffering thresholds)"""
@@ -176,6 +177,18 @@ class C20(Prop):
         p = self._mkinput(case, d)
         if "kill" in case:
             return self._observe_kill(case, d, p)
+        if case.get("preexist"):
+            # the output paths already hold an OLDER, LONGER product (a re-run with a shorter selection): learn the
+            # paths with a dry run, then overwrite each with a longer file of foreign bytes
+            try:
+                fil0 = FilReader(str(p))
+                for o in run_writer(fil0, case, d):
+                    n0 = os.path.getsize(o)
+                    with open(o, "wb") as fh:
+                        fh.write(b"\xab" * (3 * n0 + 1000))
+                fil0._file.close()
+            except Exception:  # noqa: BLE001, S110
+                pass
         log = []
         undo = install_spy(log)
         try:
@@ -341,7 +354,10 @@ class C20(Prop):
     def regime(self, case, obs):
         if case.get("big"):
             return "above-1MiB"
-        return "sigkill" if "kill" in case else case["writer"]
+        tags = ["sigkill" if "kill" in case else case["writer"]]
+        if case.get("preexist"):
+            tags.append("over-older-longer-file")
+        return tags
 
     def nontrivial(self, case, obs):
         if "kill" in case:
